@@ -150,8 +150,17 @@ bool StepScript(InterpreterEnv& env)
         env.execdata_history.push_back(env.execdata);
         env.opcode_pos_history.push_back(env.opcode_pos);
 
-        if (!StepScript(env, pc)) {
-            // undo above pushes
+        // a failed operation (error or exception) leaves the environment as it was before the step:
+        // the position had already moved past it, so the next step skipped it and the marker lagged behind
+        auto undo = [&env]() {
+            env.stack = env.stack_history.back();
+            env.altstack = env.altstack_history.back();
+            env.pc = env.pc_history.back();
+            env.nOpCount = env.nOpCount_history.back();
+            env.vfExec = env.vfExec_history.back();
+            env.pbegincodehash = env.pbegincodehash_history.back();
+            env.execdata = env.execdata_history.back();
+            env.opcode_pos = env.opcode_pos_history.back();
             env.stack_history.pop_back();
             env.altstack_history.pop_back();
             env.pc_history.pop_back();
@@ -160,6 +169,16 @@ bool StepScript(InterpreterEnv& env)
             env.pbegincodehash_history.pop_back();
             env.execdata_history.pop_back();
             env.opcode_pos_history.pop_back();
+        };
+        bool ok;
+        try {
+            ok = StepScript(env, pc);
+        } catch (...) {
+            undo();
+            throw;
+        }
+        if (!ok) {
+            undo();
             return false;
         }
 
